@@ -1101,11 +1101,14 @@ class Transport(threading.Thread, ClosingContextManager):
                 m.add_string(src_addr[0])
                 m.add_int(src_addr[1])
             chan = Channel(chanid)
+            # fully set the channel up before publishing it: the transport
+            # thread unlinks every registered channel when the connection
+            # dies, and needs chan.transport for that
+            chan._set_transport(self)
+            chan._set_window(window_size, max_packet_size)
             self._channels.put(chanid, chan)
             self.channel_events[chanid] = event = threading.Event()
             self.channels_seen[chanid] = True
-            chan._set_transport(self)
-            chan._set_window(window_size, max_packet_size)
         finally:
             self.lock.release()
         self._send_user_message(m)
